@@ -20,7 +20,19 @@ NAMES = {'root': 1, 'a': 2, 'b': 3, 'c': 4, 'item': 5, 'g': 6, 'h': 7, 'm': 8, '
 TYPES = {'xs:int': 11, 'xs:date': 12, 'xs:string': 13, 'xs:boolean': 14, 'complex': 20}
 
 
-def schema_xsd(ns, uri=NS):
+XSDNS_SCHEMA = ('<schema xmlns="http://www.w3.org/2001/XMLSchema">'       # no target namespace, XSD as default namespace
+                '<element name="root"><complexType><sequence>'
+                '<element name="a" maxOccurs="unbounded"><complexType><sequence><element name="item" type="int" maxOccurs="unbounded"/>'
+                '</sequence><attribute name="k" type="int"/></complexType>'
+                '<unique name="UA"><selector xpath="item"/><field xpath="."/></unique></element>'
+                '<element name="b" minOccurs="0" maxOccurs="unbounded"><complexType><sequence>'
+                '<element name="item" type="date" maxOccurs="unbounded"/></sequence></complexType></element>'
+                '</sequence></complexType></element></schema>')
+
+
+def schema_xsd(ns, uri=NS, xsd_default=False):
+    if xsd_default:
+        return XSDNS_SCHEMA
     tns = ' targetNamespace="%s" xmlns:t="%s" elementFormDefault="qualified"' % (uri, uri) if ns else ''
     p = 't:' if ns else ''
     return ('<xs:schema xmlns:xs="http://www.w3.org/2001/XMLSchema"%s>'
@@ -37,10 +49,12 @@ def schema_xsd(ns, uri=NS):
             '<xs:element name="b" minOccurs="0" maxOccurs="unbounded"><xs:complexType><xs:sequence>'
             '<xs:element name="item" type="xs:date" maxOccurs="unbounded"/><xs:element ref="%sg" minOccurs="0"/>'
             '</xs:sequence></xs:complexType></xs:element>'
-            '<xs:element name="c" minOccurs="0"><xs:complexType><xs:sequence>'
+            '<xs:element name="c" minOccurs="0" maxOccurs="unbounded"><xs:complexType><xs:sequence>'
             '<xs:element ref="%sh" maxOccurs="unbounded"/><xs:element name="deep" type="%sdeepType" minOccurs="0"/>'
-            '</xs:sequence></xs:complexType></xs:element>'
-            '</xs:sequence></xs:complexType></xs:element></xs:schema>' % (tns, p, p, p, p, p, p))
+            '</xs:sequence></xs:complexType>'
+            # a constraint on the middle element of three-step paths (c/deep/leaf), several scope instances
+            '<xs:unique name="UC"><xs:selector xpath="%sdeep/%sleaf"/><xs:field xpath="."/></xs:unique></xs:element>'
+            '</xs:sequence></xs:complexType></xs:element></xs:schema>' % (tns, p, p, p, p, p, p, p, p))
 
 
 # the declaration tree of the schema as the model sees it (deepType unfolded to a fixed depth)
@@ -61,12 +75,12 @@ def coq_decl(d):
     return '(SDecl %s %s %s)' % (coq_N(NAMES[d[0]]), coq_N(TYPES[d[1]]), coq_list([coq_decl(k) for k in d[2]]))
 
 
-def gen_doc(rng, invalid=False):
+def gen_doc(rng, invalid=False, simple=False):
     def el(tag, text=None, kids=None, attrs=None):
         return {'tag': tag, 'text': text, 'kids': kids or [], 'attrs': attrs or {}}
 
     def deep(n):
-        kids = [el('leaf', str(rng.randint(0, 9))) for _ in range(rng.randint(1, 2))]
+        kids = [el('leaf', str(rng.randint(0, 4))) for _ in range(rng.randint(1, 3))]
         if n and rng.random() < 0.7:
             kids.append(el('deep', kids=deep(n - 1)))
         return kids
@@ -76,10 +90,10 @@ def gen_doc(rng, invalid=False):
                        attrs={'k': '1'} if rng.random() < 0.5 else {}))
     for _ in range(rng.randint(0, 2)):
         ks = [el('item', '2020-0%d-1%d' % (rng.randint(1, 9), rng.randint(0, 9))) for _ in range(rng.randint(1, 2))]
-        if rng.random() < 0.5:
+        if rng.random() < 0.5 and not simple:
             ks.append(el('g', rng.choice(['true', 'false'])))
         kids.append(el('b', kids=ks))
-    if rng.random() < 0.7:
+    for _ in range(rng.choice([0, 1, 1, 2, 3]) if not simple else 0):
         ks = [el(rng.choice(['h', 'm']), 's%d' % i) for i in range(rng.randint(1, 3))]
         if rng.random() < 0.7:
             ks.append(el('deep', kids=deep(3)))
@@ -178,10 +192,10 @@ def subject(case):
         subject(dict(case, doc=case['second'], uri='urn:p2', _inner=True,
                      addrs=[list(a) for a, _n in nodes(case['second']) if a][:10]))
     uri = case.get('uri', NS)
-    key = (case['ns'], case['version'], uri)
+    key = (case['ns'], case['version'], uri, bool(case.get('xsd_default')))
     if key not in _S:
         cls = xmlschema.XMLSchema11 if case['version'] == '1.1' else xmlschema.XMLSchema10
-        _S[key] = cls(schema_xsd(case['ns'], uri))
+        _S[key] = cls(schema_xsd(case['ns'], uri, bool(case.get('xsd_default'))))
     s = _S[key]
     doc, ns = case['doc'], case['ns']
     xml = render(doc, ns, default_ns=case['default_ns'], uri=uri)
@@ -317,14 +331,14 @@ def evaluate(ctx, cases):
                     # the selection cannot be expected from validating that node alone
                     for k in ('want_errors', 'val_errors', 'part_errors'):
                         if r.get(k) is not None:
-                            r[k] = [x for x in r[k] if not ('duplicated value' in x and 'UA' in x)]
+                            r[k] = [x for x in r[k] if not ('duplicated value' in x and ('UA' in x or 'UC' in x))]
                 if r.get('val_errors') is not None and r['val_errors'] != r['want_errors']:
                     problems.append('iter_errors(path=%s) gives %s, the full run has %s in the selected part'
                                     % (r['path'], r['val_errors'][:3], r['want_errors'][:3]))
                 if r['part_errors'] != r['want_errors']:
                     missing = [x for x in r['want_errors'] if x not in r['part_errors']]
                     extra = [x for x in r['part_errors'] if x not in r['want_errors']]
-                    if missing and not extra and all('duplicated value' in x and 'UA' in x for x in missing) \
+                    if missing and not extra and all('duplicated value' in x and ('UA' in x or 'UC' in x) for x in missing) \
                             and r.get('val_errors') == r['want_errors']:
                         ctx.known_finding('F-C20a')     # decoding with a path below the scope element skips its identity constraints
                     else:
@@ -355,6 +369,12 @@ def gen(ctx):
         ns = i % 2 == 1
         cases.append({'doc': doc, 'ns': ns, 'default_ns': ns and (i % 4 == 3), 'version': '1.1' if (i // 2) % 2 else '1.0',
                       'addrs': addrs, 'second': gen_doc(rng) if ns and i % 4 == 1 else None})
+    # the schema written with XSD as its default namespace (no prefix for the XSD elements), documents without namespaces
+    for i in range(8 if ctx.quick() else 100):
+        doc = gen_doc(rng, invalid=(i % 3 == 2), simple=True)
+        addrs = [list(a) for a, _n in nodes(doc) if a]
+        cases.append({'doc': doc, 'ns': False, 'default_ns': False, 'version': '1.1' if i % 2 else '1.0', 'addrs': addrs[:12],
+                      'second': None, 'xsd_default': True})
     return cases
 
 
